@@ -13,26 +13,35 @@ use core::ptr;
 use libc::{c_char, c_int, c_uint, c_void, iovec, mode_t, msghdr, off_t, size_t, socklen_t, ssize_t};
 
 #[cfg(not(feature = "bigfd"))]
-pub const NFD: usize = 40;
+pub const NFD: usize = 56;
 #[cfg(feature = "bigfd")]
 pub const NFD: usize = 230;
-pub const NOBJ: usize = 20;
+pub const NOBJ: usize = 30;
 #[cfg(not(feature = "bigfd"))]
-pub const NPK: usize = 10;
+pub const NPK: usize = 14;
 #[cfg(feature = "bigfd")]
 pub const NPK: usize = 4;
 pub const QCAP: usize = 4;
 #[cfg(not(feature = "bigfd"))]
-pub const PFD: usize = 4;
+pub const PFD: usize = 6;
 #[cfg(feature = "bigfd")]
 pub const PFD: usize = 70;
 pub const PKMAX: usize = 72;
 /// descriptors in SCM_RIGHTS transit, over the whole run (bump-allocated)
 #[cfg(not(feature = "bigfd"))]
-pub const NINF: usize = 8;
+pub const NINF: usize = 12;
 #[cfg(feature = "bigfd")]
 pub const NINF: usize = 140;
 pub const NMAP: usize = 8;
+/// closes over the whole run (event log) and descriptors per object
+#[cfg(not(feature = "bigfd"))]
+pub const NCL: usize = 56;
+#[cfg(feature = "bigfd")]
+pub const NCL: usize = 230;
+#[cfg(not(feature = "bigfd"))]
+pub const OFD: usize = 6;
+#[cfg(feature = "bigfd")]
+pub const OFD: usize = 140;
 pub const FD0: usize = 3;
 
 pub const K_NONE: u8 = 0;
@@ -66,7 +75,16 @@ pub struct Kernel {
     pub fd_owner: [u8; NFD], // 0 = the process under test, 1 = "another process" (C12)
     pub kind: [u8; NOBJ],
     pub peer: [i16; NOBJ],
-    pub refs: [u8; NOBJ], // open fds + references held by queued SCM_RIGHTS packets
+    // `fd_obj` is immutable once a descriptor exists; closing only sets `fd_closed[fd]`.  The crate
+    // sometimes closes a descriptor whose number — and even whether the close happens — the symbolic
+    // executor cannot constant-fold (an enum read back from the heap).  With this split such a close
+    // leaves every table constant except one flag array, no counter changes, and a later use of a
+    // descriptor forks once on "was it the one closed?" and goes on with constant indices.
+    pub fd_closed: [bool; NFD],
+    pub ofd: [[i16; OFD]; NOBJ], // descriptors ever created for an object
+    pub nofd: [usize; NOBJ],
+    pub shm_list: [i16; NMAP],
+    pub nshm: usize,
     pub nonblock: [bool; NOBJ],
     pub qhead: [usize; NOBJ],
     pub qlen: [usize; NOBJ],
@@ -85,7 +103,6 @@ pub struct Kernel {
     pub map_obj: [i16; NMAP],
     pub map_len: [usize; NMAP],
     pub nmap: usize,
-    pub nopen: usize,    // descriptors currently open
     pub nmapped: usize,  // mappings currently live
     // configuration / fault variables
     pub sndbuf: u32,
@@ -120,7 +137,11 @@ pub static mut K: Kernel = Kernel {
     fd_owner: [0; NFD],
     kind: [0; NOBJ],
     peer: [-1; NOBJ],
-    refs: [0; NOBJ],
+    fd_closed: [false; NFD],
+    ofd: [[-1; OFD]; NOBJ],
+    nofd: [0; NOBJ],
+    shm_list: [-1; NMAP],
+    nshm: 0,
     nonblock: [false; NOBJ],
     qhead: [0; NOBJ],
     qlen: [0; NOBJ],
@@ -137,7 +158,6 @@ pub static mut K: Kernel = Kernel {
     map_obj: [-1; NMAP],
     map_len: [0; NMAP],
     nmap: 0,
-    nopen: 0,
     nmapped: 0,
     sndbuf: 64,
     block_mode: BLOCK_ASSUME,
@@ -191,9 +211,11 @@ unsafe fn new_fd(obj: i16, cloexec: bool) -> c_int {
     let fd = K.nextfd;
     K.nextfd += 1;
     K.fd_obj[fd] = obj;
+    kani::assume(K.nofd[obj as usize] < OFD); // model capacity
+    K.ofd[obj as usize][K.nofd[obj as usize]] = fd as i16;
+    K.nofd[obj as usize] += 1;
     K.fd_cloexec[fd] = cloexec;
     K.fd_owner[fd] = CUR;
-    K.nopen += 1;
     if !cloexec {
         K.no_cloexec = true;
     }
@@ -216,66 +238,91 @@ unsafe fn new_obj(kind: u8) -> i16 {
     K.kind[o] = kind;
     o as i16
 }
+/// object behind an OPEN descriptor, -1 otherwise
 pub unsafe fn obj_of(fd: c_int) -> i16 {
     if fd < 0 || fd as usize >= NFD {
         return -1;
     }
-    K.fd_obj[fd as usize]
+    let o = K.fd_obj[fd as usize];
+    if o < 0 {
+        return -1;
+    }
+    if K.fd_closed[fd as usize] {
+        return -1;
+    }
+    o
 }
+/// does any open descriptor refer to object `e`?
+unsafe fn has_open_fd(e: usize) -> bool {
+    let mut k = 0;
+    let mut r = false;
+    while k < K.nofd[e] {
+        if !K.fd_closed[K.ofd[e][k] as usize] {
+            r = true;
+        }
+        k += 1;
+    }
+    r
+}
+/// An object is alive while a descriptor refers to it, or while a descriptor to it travels in a
+/// packet queued for an endpoint that is itself alive (rule 2).  Evaluated on demand — only where
+/// the kernel really asks (EPIPE, end-of-stream, poll) — over the flat in-flight table, three
+/// levels deep; a deeper chain sets `depth_exceeded` (=> inconclusive, never a pass).
 pub unsafe fn alive(o: i16) -> bool {
-    o >= 0 && K.refs[o as usize] > 0
+    o >= 0 && alive_d::<0>(o as usize)
+}
+unsafe fn alive_d<const D: u8>(e: usize) -> bool {
+    if has_open_fd(e) {
+        return true;
+    }
+    if K.ninf == 0 {
+        return false; // nothing was ever in transit
+    }
+    let mut k = 0;
+    let mut r = false;
+    while k < NINF {
+        if k < K.ninf && K.inf_live[k] && K.inf_obj[k] as usize == e {
+            let h = K.inf_holder[k] as usize;
+            let ha = match D {
+                0 => alive_d::<1>(h),
+                1 => alive_d::<2>(h),
+                _ => {
+                    let a = has_open_fd(h);
+                    if !a {
+                        K.depth_exceeded = true;
+                    }
+                    a
+                },
+            };
+            if ha {
+                r = true;
+            }
+        }
+        k += 1;
+    }
+    r
 }
 unsafe fn qslot(e: usize, i: usize) -> usize {
     (K.qhead[e] + i) % QCAP
 }
 
-/// Drop one reference to `o`.  When a socket endpoint loses its last reference, everything still
-/// queued *for* it is discarded and the descriptors those packets carry are released (rule 2).
-/// The release is done over the flat in-flight table in three passes, which covers cascades three
-/// levels deep (a queue holding a receiver whose queue holds a receiver whose queue holds ...);
-/// anything deeper sets `depth_exceeded` (=> the run is inconclusive, never a pass).
-unsafe fn unref(o: i16) {
-    drop_ref(o);
-    settle();
-}
-unsafe fn drop_ref(o: i16) {
-    let e = o as usize;
-    K.refs[e] -= 1;
-    if K.refs[e] == 0 {
-        if K.kind[e] == K_SHM && K.shm_maps[e] == 0 {
-            free_shm(e);
-        }
-        if K.kind[e] == K_SOCK {
-            K.qlen[e] = 0;
-            if K.peer[e] >= 0 {
-                ep_notify(K.peer[e]); // the peer sees a hang-up
+/// after a descriptor or an in-flight reference went away: release shared-memory backing that
+/// nothing refers to any more, and tell registered receiver sets about hang-ups.  Both sweeps run
+/// over constant indices (the lists of shm objects / registrations), never over the closed
+/// descriptor's possibly symbolic number.
+unsafe fn after_release() {
+    if K.nshm > 0 {
+        let mut j = 0;
+        while j < K.nshm {
+            let e = K.shm_list[j] as usize;
+            if !K.shm_ptr[e].is_null() && K.shm_maps[e] == 0 && !alive(e as i16) {
+                free_shm(e);
             }
+            j += 1;
         }
     }
-}
-unsafe fn settle_pass() {
-    let mut k = 0;
-    while k < NINF {
-        if k < K.ninf && K.inf_live[k] && K.refs[K.inf_holder[k] as usize] == 0 {
-            K.inf_live[k] = false;
-            drop_ref(K.inf_obj[k]);
-        }
-        k += 1;
-    }
-}
-unsafe fn settle() {
-    if K.ninf == 0 {
-        return; // nothing was ever in transit
-    }
-    settle_pass();
-    settle_pass();
-    settle_pass();
-    let mut k = 0;
-    while k < NINF {
-        if k < K.ninf && K.inf_live[k] && K.refs[K.inf_holder[k] as usize] == 0 {
-            K.depth_exceeded = true;
-        }
-        k += 1;
+    if EP.n > 0 {
+        ep_rescan_hangups();
     }
 }
 unsafe fn free_shm(e: usize) {
@@ -302,8 +349,6 @@ pub unsafe extern "C" fn socketpair(_d: c_int, t: c_int, _p: c_int, sv: *mut c_i
     let b = new_obj(K_SOCK);
     K.peer[a as usize] = b;
     K.peer[b as usize] = a;
-    K.refs[a as usize] = 1;
-    K.refs[b as usize] = 1;
     let ce = t & libc::SOCK_CLOEXEC != 0;
     *sv = new_fd(a, ce);
     *sv.add(1) = new_fd(b, ce);
@@ -322,33 +367,29 @@ pub unsafe extern "C" fn setsockopt(fd: c_int, _l: c_int, _n: c_int, _v: *const 
 }
 #[no_mangle]
 pub unsafe extern "C" fn close(fd: c_int) -> c_int {
-    // close is the one call that still "works" for a dead process (exit closes everything)
-    if CUR == 0 {
-        K.syscalls += 1;
+    // close is the one call that still "works" for a dead process (exit closes everything); it is
+    // not counted as a crash point
+    // the only state a close changes is one flag (see `fd_closed`); no counter, no branch before it
+    let bad = obj_of(fd) < 0;
+    K.bad_close |= bad;
+    if !bad {
+        K.fd_closed[fd as usize] = true;
+        after_release();
+        return 0;
     }
-    let o = obj_of(fd);
-    if o < 0 {
-        K.bad_close = true;
-        ERRNO = libc::EBADF;
-        return -1;
-    }
-    K.fd_obj[fd as usize] = -1;
-    K.nopen -= 1;
-    unref(o);
-    0
+    ERRNO = libc::EBADF;
+    -1
 }
 /// what process exit does: close every descriptor the process still owns
 pub unsafe fn exit_process(owner: u8) {
     let mut fd = FD0;
     while fd < NFD {
-        if K.fd_obj[fd] >= 0 && K.fd_owner[fd] == owner {
-            let o = K.fd_obj[fd];
-            K.fd_obj[fd] = -1;
-            K.nopen -= 1;
-            unref(o);
+        if fd < K.nextfd && K.fd_owner[fd] == owner {
+            K.fd_closed[fd] = true;
         }
         fd += 1;
     }
+    after_release();
 }
 
 unsafe fn enqueue(
@@ -427,7 +468,6 @@ unsafe fn enqueue(
             K.inf_live[k] = true;
             K.inf_holder[k] = p as i16;
             K.inf_obj[k] = e;
-            K.refs[e as usize] += 1;
         }
         i += 1;
     }
@@ -567,10 +607,10 @@ pub unsafe extern "C" fn recvmsg(fd: c_int, msg: *mut msghdr, flags: c_int) -> s
                 let o = K.inf_obj[x];
                 K.inf_live[x] = false;
                 if i < k {
-                    // the in-flight reference becomes the new descriptor's reference
+                    // the in-flight reference becomes a descriptor
                     *out.add(i) = new_fd(o, flags & libc::MSG_CMSG_CLOEXEC != 0);
                 } else {
-                    unref(o);
+                    after_release();
                 }
             }
             i += 1;
@@ -607,7 +647,7 @@ pub unsafe extern "C" fn recv(fd: c_int, buf: *mut c_void, len: size_t, _flags: 
         if i < K.pk[pk].nfd {
             let x = K.pk[pk].inf0 + i;
             K.inf_live[x] = false;
-            unref(K.inf_obj[x]);
+            after_release();
         }
         i += 1;
     }
@@ -632,7 +672,6 @@ pub unsafe extern "C" fn fcntl(fd: c_int, cmd: c_int, arg: c_int) -> c_int {
         if fd_create_fails() {
             return -1;
         }
-        K.refs[o as usize] += 1;
         return new_fd(o, cmd == libc::F_DUPFD_CLOEXEC);
     }
     if cmd == libc::F_GETFL {
@@ -704,7 +743,9 @@ pub unsafe extern "C" fn shm_open(_n: *const c_char, _f: c_int, _m: mode_t) -> c
         return -1;
     }
     let o = new_obj(K_SHM);
-    K.refs[o as usize] = 1;
+    kani::assume(K.nshm < NMAP); // model capacity
+    K.shm_list[K.nshm] = o;
+    K.nshm += 1;
     // glibc's shm_open adds O_CLOEXEC
     new_fd(o, true)
 }
@@ -762,9 +803,7 @@ pub unsafe extern "C" fn munmap(a: *mut c_void, len: size_t) -> c_int {
             K.map_obj[i] = -1;
             K.shm_maps[o] -= 1;
             K.nmapped -= 1;
-            if K.shm_maps[o] == 0 && K.refs[o] == 0 {
-                free_shm(o);
-            }
+            after_release();
             return 0;
         }
         i += 1;
@@ -783,7 +822,6 @@ pub unsafe extern "C" fn dup(fd: c_int) -> c_int {
     if fd_create_fails() {
         return -1;
     }
-    K.refs[o as usize] += 1;
     new_fd(o, false)
 }
 #[no_mangle]
@@ -806,7 +844,6 @@ pub unsafe extern "C" fn socket(_d: c_int, t: c_int, _p: c_int) -> c_int {
         return -1;
     }
     let a = new_obj(K_SOCK);
-    K.refs[a as usize] = 1;
     new_fd(a, t & libc::SOCK_CLOEXEC != 0)
 }
 #[no_mangle]
@@ -873,7 +910,6 @@ pub unsafe extern "C" fn epoll_create1(f: c_int) -> c_int {
         return -1;
     }
     let o = new_obj(K_EPOLL);
-    K.refs[o as usize] = 1;
     new_fd(o, f & libc::EPOLL_CLOEXEC != 0)
 }
 #[no_mangle]
@@ -997,7 +1033,15 @@ pub fn link() {
 }
 
 pub unsafe fn open_fds() -> usize {
-    K.nopen
+    let mut n = 0;
+    let mut f = FD0;
+    while f < K.nextfd {
+        if !K.fd_closed[f] {
+            n += 1;
+        }
+        f += 1;
+    }
+    n
 }
 pub unsafe fn live_maps() -> usize {
     K.nmapped
@@ -1061,7 +1105,7 @@ pub fn object_of(fd: c_int) -> i64 {
     unsafe { obj_of(fd) as i64 }
 }
 pub fn nopen() -> usize {
-    unsafe { K.nopen }
+    unsafe { open_fds() }
 }
 pub fn nmapped() -> usize {
     unsafe { K.nmapped }
